@@ -1498,6 +1498,34 @@ example : fileGet (fun _ => some 1) id (fun p => (decodeBlockKeys p).map (fun _ 
         ([1, 2, 3] ++ storeBytes [⟨7, 5, 1, 3, ⟨0, 0, 7⟩, [⟨1, 7, 14⟩], 14⟩] ++ u64enc 3) 2 3)) [9]
     = some (some ()) := by decide
 
+/-- the remaining layout: files with at most one block carry no index (`fst_len = 0`,
+`SSTableIndexV3Empty`). `get_block_with_key` is the one pseudo-block whatever an FST would say, and
+`term_ord_or_next` / `get` on the bytes equal the block model, hence (for `get`) the specification.
+Together with `C15_file_term_ord` / `C15_file_get` every dictionary the writer can produce is
+covered. -/
+theorem C15_small_file_key_ops {V} (blockLen : Nat) (m : Assoc V) (hs : SortedMap m)
+    (hsingle : (build blockLen m).single = true)
+    (geFirst : Key → Option Nat) (skip : List UInt8 → List UInt8) (vals : List UInt8 → List V)
+    (ps : List (List UInt8))
+    (hlen : ps.length = (build blockLen m).blocks.length)
+    (hskip : ∀ (i : Nat) p b, ps[i]? = some p → (build blockLen m).blocks[i]? = some b →
+      skip p = encodeBlockKeys (keys b.entries) ∧ vals p = b.entries.map (·.2))
+    (hpsz : ∀ p ∈ ps, p ≠ [] ∧ p.length + 1 < 4294967296)
+    (numTerms version : Nat)
+    (hn : numTerms < 18446744073709551616) (hv : version < 4294967296) (k : Key) :
+    fileTermOrdOrNext geFirst skip (openFile (finishFile (frameBlocks ps) (u64enc 0) numTerms version)) k
+      = some ((build blockLen m).termOrdOrNext k) ∧
+    fileGet geFirst skip vals (openFile (finishFile (frameBlocks ps) (u64enc 0) numTerms version)) k
+      = some (SSTable.get m k) := by
+  have h := small_file_key_ops blockLen m hs hsingle geFirst skip vals ps hlen hskip hpsz numTerms version hn hv k
+  refine ⟨h.1, ?_⟩
+  rw [h.2, refine_get blockLen m hs k]
+
+example : fileTermOrdOrNext (fun _ => none) id (openFile (finishFile (frameBlocks [[16, 7, 17, 9]]) (u64enc 0) 2 3)) [7, 9]
+      = some (.exact 1) ∧
+    fileTermOrdOrNext (fun _ => none) id (openFile (finishFile (frameBlocks []) (u64enc 0) 0 3)) [7]
+      = some (.next 0) := by decide
+
 /-! ## non-vacuity -/
 
 example : StrictInc [[], [0], [0, 0], [0, 255], [1], [255, 255]] :=
